@@ -83,7 +83,11 @@ def run(rep, tier, seed, replay=None):
         '(ItemBatcher, span-1 fast path, the six distribution steps, distribute_item_space_to_growth_limit, flush_planned_*), the items\' '
         'content sizes as an oracle (K runs it with fixed-size leaves: contribution = fixed size, minimum capped by spanned_fixed_track_limit)',
         'the inner loops of 11.5 (distribute_space_up_to_limits with arbitrary filters / flex-factor proportions / infinite limits) carry the fuel '
-        '2*len+8: enough on every K case (bit-exact agreement), proved enough only for the call shape of 11.6',
+        '2*len+8: enough on every K case (bit-exact agreement); proved enough over exact rationals for finite space and well-formed tracks '
+        '(C09_distribute_terminates for 11.6, C09_intrinsic_distribute_terminates for every affected-filter / proportion of 11.5); NOT proved for '
+        'binary32, NaN / infinite space, or that every call site inside 11.5 meets the well-formedness premise.  distribute_loop / fr_loop / '
+        'batch_loop return their current state when the fuel runs out and the runners print no marker: exhaustion would look like a normal '
+        'result and could only surface as a disagreement with the implementation (audit wave 5c, notes/AUDIT.md C09)',
         'numeric theorems are over exact rationals (XQ); the F32 run of the same definitions is compared bit for bit but no rounding-error '
         'analysis connects the two',
         'u16 track counts modelled as N (no wrap-around below 65536 tracks)'])
@@ -169,7 +173,7 @@ def run(rep, tier, seed, replay=None):
                        '(witnesses of the refuted statements incl. the 11.5 leak, repaired mixed-repeat count) come first.')
     rep.cov['input_distribution'] = hist
     rep.cov['samples'] = [{'case': c, 'impl': a} for c, a in list(zip(cases, impl))[:2] + list(zip(cases, impl))[-2:]]
-    rep.cov['samples'].append({'theorem': 'C09_fr_fill : Forall track_ok tracks -> finite S -> snd (fr_exit tracks S) = true -> '
+    rep.cov['samples'].append({'theorem': 'C09_fr_fill_partial : Forall track_ok tracks -> finite S -> snd (fr_exit tracks S) = true -> '
                                           'x_leb (Fin 1) (final_flex_factor_sum tracks S) = true -> '
                                           'x_leb S (fsum (map base_size (expand_flexible_tracks amin amax (Definite S) items tracks))) = true'})
     rep.cov['samples'].append({'theorem': 'C09_intrinsic_preserves_fixed_partial : (forall it, In it items -> alone it i) -> nth_error tracks i = Some t -> '
